@@ -9,3 +9,10 @@ import (
 func jerrIndex(i int) bytes.Index { return bytes.Index(i) }
 
 func jdocNew(text string) jlib.Document { return jdoc.New("doc", text) }
+
+func jdocNewOpt(b []byte, trailing bool) jlib.Document {
+	if trailing {
+		return jdoc.New("doc", b, jdoc.AllowTrailingNonSpaceCharacters())
+	}
+	return jdoc.New("doc", b)
+}
